@@ -61,11 +61,13 @@ Section NodeInd.
   Variable P : node -> Prop.
   Hypothesis Hfile : forall name c, P (NFile name c).
   Hypothesis Hdir : forall name ch, Forall P ch -> P (NDir name ch).
+  Hypothesis Hlink : forall name t, P (NLink name t).
   Fixpoint node_ind' (n : node) : P n :=
     match n with
     | NFile name c => Hfile name c
     | NDir name ch => Hdir name ch ((fix go (l : list node) : Forall P l :=
                                        match l with [] => Forall_nil P | x :: r => Forall_cons x (node_ind' x) (go r) end) ch)
+    | NLink name t => Hlink name t
     end.
 End NodeInd.
 
@@ -73,12 +75,16 @@ Lemma spec_files_app a b : spec_files (a ++ b) = spec_files a ++ spec_files b.
 Proof. unfold spec_files. apply flat_map_app. Qed.
 
 Lemma spec_walk_node n : forall dirs, spec_node dirs n = spec_files (walk_node dirs n).
-Proof. induction n as [name c|name ch IH] using node_ind'; intros dirs.
+Proof. induction n as [name c|name ch IH|name t] using node_ind'; intros dirs.
   - cbn [walk_node spec_node]. unfold spec_files. cbn [flat_map fst snd]. rewrite app_nil_r.
     destruct c; try reflexivity.
     unfold spec_accept. rewrite last_last, removelast_last. reflexivity.
   - cbn [walk_node spec_node]. induction IH as [|x r Hx Hr IHr]; [reflexivity|].
-    cbn [flat_map]. rewrite spec_files_app, Hx, IHr. reflexivity. Qed.
+    cbn [flat_map]. rewrite spec_files_app, Hx, IHr. reflexivity.
+  - cbn [walk_node spec_node]. destruct t as [c| |]; try reflexivity.
+    unfold spec_files. cbn [flat_map fst snd]. rewrite app_nil_r.
+    destruct c; try reflexivity.
+    unfold spec_accept. rewrite last_last, removelast_last. reflexivity. Qed.
 
 Lemma spec_walk l : annotated_spec l = spec_files (walk l).
 Proof. unfold annotated_spec, spec_nodes, walk, walk_nodes. induction l as [|x r IH]; [reflexivity|].
